@@ -297,6 +297,11 @@ SigOf(pw) ==
        ELSE IF pred = "Inv_ToldWithinAllowed" /\ emptied(w) THEN "cache-cpuset-emptied-runtime-keeps-old"
        ELSE IF pred = "Inv_ExclNotInOthersTold" /\ IsTA /\ ~\E g \in SetOf(pol'.grants) : g.c = w[2]
             THEN "other-container-holds-no-grant"
+       \* consequence of F-C05-5/F-C13-3: a configuration rejected while being applied left a cpuset in the cache that
+       \* disagrees with the (restored) grants; whichever request flushes it tells the runtime that cpuset
+       ELSE IF pred = "Inv_ExclNotInOthersTold" /\ w[2] \in taint \cup taint' THEN "other-cpuset-left-by-rejected-configuration"
+       ELSE IF pred \in {"Inv_ReservedOnlyReservedClass", "Inv_ToldWithinAllowed", "Inv_IsolatedOnlyByGrant"} /\ w \in taint \cup taint'
+            THEN "cpuset-left-by-rejected-configuration"
        \* consequence of F-C05-1: a container left grant-less by a failed Update keeps its stale pinning whatever changes
        ELSE IF pred \in {"Inv_ReservedOnlyReservedClass", "Inv_ToldWithinAllowed"} /\ IsTA /\ w \in DOMAIN ctrs'
                /\ ~\E g \in SetOf(pol'.grants) : g.c = w
